@@ -362,6 +362,11 @@ func init() {
 			c03Fatal.Store(true)
 			runtime.Goexit()
 		}
-		return eachLine(in, out, func(c c03Case) any { return c03Run(c) })
+		return eachLine(in, out, func(c c03Case) any {
+			if c.Op == "stress" {
+				return c03StressRun(c)
+			}
+			return c03Run(c)
+		})
 	})
 }
